@@ -1,9 +1,128 @@
 import UF.Driver.Decode
-/- Ops of work group I1 (see notes/AGENT_GUIDE.md). Return `none` for ops of other groups. -/
+import UF.Driver.Ops.GroupB
+import UF.Driver.Ops.GroupD
+import UF.Driver.Ops.GroupE
+import UF.Compose.Basic
+/- Ops of work group I1 (see notes/AGENT_GUIDE.md). Return `none` for ops of other groups.
+
+   The ops of this file run the COMPOSED model from the BYTES of the lists: group D's scan and retrieval,
+   group E's `NewRule` over group D's `TrimSpace` and group H's `NewHostRule`, group B's engines, group C's
+   `GetDNSBasicRule` — the glue no single group's op covers. -/
+namespace UF.Ops.I1
+open UF UF.B UF.Storage UF.Compose
+
+/-- Executable `StorageOK`. -/
+def storageOKB (lists : List RList) : Bool :=
+  !hasDupIds lists [] && lists.all (fun l => UF.Ops.inInt32 l.id) && decide (totalSize lists < maxInt32)
+
+/-- The model of `strings.ToLower` (shortcut) is exact on ASCII only. -/
+def rulesInDomain (rs : List Rule) : Bool :=
+  rs.all fun
+    | .net r => Bytes.isAscii r.shortcut
+    | _ => true
+
+def kindLetter : Rule → String
+  | .net _ => "N" | .host _ => "H" | .cos _ => "C"
+
+/-- `i1.chain ((id ign content)…) Q psl addrs prefixes rewrites reshortcuts (pat…)`:
+    model = storage scan with the modelled parser → network engine → `MatchAll` (retrieval through the
+    storage model); spec = filter over the rules parsed line by line.  Answers: sorted text sets. -/
+def opChain (args : List W) : String :=
+  match args with
+  | [ls, q, psl, addrs, prefixes, rewrites, shortcuts, pats] =>
+    match UF.Ops.decRLists false ls, decRequest q, decPslTable psl, decAddrTable addrs, UF.Ops.decPrefixTable prefixes,
+        UF.Ops.decRewriteTable rewrites, UF.Ops.decShortcutTable shortcuts, decPatTable pats with
+    | some lists, some q, some psl, some addrs, some prefixes, some rewrites, some shortcuts, some pats =>
+      if !storageOKB lists then "ood ood" else
+      let px := UF.Ops.mkParseExt psl addrs prefixes rewrites shortcuts pats
+      let spec := specRules px lists
+      if !rulesInDomain spec then "ood ood" else
+      let L := storageNetRules px lists
+      let st : RuleStorage := ⟨lists, []⟩
+      let e := Engine.build djb2 Facts.shortcutLength L
+      let model := e.matchAll djb2 Facts.shortcutLength (retrieveNet (retrieveAt UF.Ops.driverIO px st)) px.ext q
+      let specAns := specMatchAll px.ext (netRulesOf spec) q
+      UF.Ops.B.outTextSet (model.map (·.text)) ++ " " ++ UF.Ops.B.outTextSet (specAns.map (·.text))
+    | _, _, _, _, _, _, _, _ => "bad-decode"
+  | _ => "bad-arity"
+
+/-- `i1.dnschain ((id ign content)…) Q psl addrs prefixes rewrites reshortcuts (pat…)`:
+    model = storage scan → DNS engine → `MatchRequest` with group C's `getDNSBasicRule`; spec = `specDns`
+    over the rules parsed line by line.  Answer format of `c02.dns`, plus the class of the basic rule. -/
+def outDnsI (r : DnsResult) : String :=
+  let cls := match r.networkRule with
+    | none => "_"
+    | some b => outBool b.whitelist ++ outBool b.important
+  (fun a => if a == "()|_|()|()|F" then "()" else a) <|
+    UF.Ops.B.outTextSet (r.networkRules.map (·.text)) ++ "|" ++ cls ++ "|" ++
+    UF.Ops.B.outHostSet r.v4 ++ "|" ++ UF.Ops.B.outHostSet r.v6 ++ "|" ++ outBool r.matched
+
+def opDnsChain (args : List W) : String :=
+  match args with
+  | [ls, q, psl, addrs, prefixes, rewrites, shortcuts, pats] =>
+    match UF.Ops.decRLists false ls, decRequest q, decPslTable psl, decAddrTable addrs, UF.Ops.decPrefixTable prefixes,
+        UF.Ops.decRewriteTable rewrites, UF.Ops.decShortcutTable shortcuts, decPatTable pats with
+    | some lists, some q, some psl, some addrs, some prefixes, some rewrites, some shortcuts, some pats =>
+      if !storageOKB lists then "ood ood" else
+      let px := UF.Ops.mkParseExt psl addrs prefixes rewrites shortcuts pats
+      let spec := specRules px lists
+      if !rulesInDomain spec then "ood ood" else
+      let L := storageRulesI px lists
+      let st : RuleStorage := ⟨lists, []⟩
+      let d := DnsEngine.build djb2 Facts.shortcutLength L
+      let model := d.matchRequest djb2 Facts.shortcutLength (retrieveAt UF.Ops.driverIO px st) px.ext getDNSBasicRule q
+      let specAns := specDns px.ext getDNSBasicRule spec q
+      outDnsI model ++ " " ++ outDnsI specAns
+    | _, _, _, _, _, _, _, _ => "bad-decode"
+  | _ => "bad-arity"
+
+/-- `i1.scan ((id ign content)…) addrs prefixes rewrites reshortcuts`: what the storage scanner yields with
+    the modelled parser, `((storageIdx/kind:text:id)…)`; spec = group D's reference scan (split at newlines,
+    index computed arithmetically) with the modelled parser; `rules-differ` if its rules are not `specRules`. -/
+def opScan (args : List W) : String :=
+  match args with
+  | [ls, addrs, prefixes, rewrites, shortcuts] =>
+    match UF.Ops.decRLists false ls, decAddrTable addrs, UF.Ops.decPrefixTable prefixes,
+        UF.Ops.decRewriteTable rewrites, UF.Ops.decShortcutTable shortcuts with
+    | some lists, some addrs, some prefixes, some rewrites, some shortcuts =>
+      if !storageOKB lists then "ood ood" else
+      let px := UF.Ops.mkParseExt [] addrs prefixes rewrites shortcuts []
+      let out (r : Rule) : String := kindLetter r ++ ":" ++ outBytes r.text ++ ":" ++ toString r.listID
+      let m := (storageRules px lists).map fun (r, k) => s!"{k.toInt}/{out r}"
+      let kl : Kind → String | .network => "N" | .host => "H" | .cosmetic => "C"
+      let ref := specStorageScan (realParser px) lists
+      let s := ref.map fun (r, id, off) =>
+        s!"{id * 4294967296 + (off : Int)}/{kl r.kind}:{outBytes r.text}:{r.listID}"
+      if ref.map (·.1) != (specRules px lists).map toS then "rules-differ rules-differ" else
+      UF.Ops.outAnswers m ++ " " ++ UF.Ops.outAnswers s
+    | _, _, _, _, _ => "bad-decode"
+  | _ => "bad-arity"
+
+/-- `i1.coschain ((id ign content)…) host css js generic psl`: model = storage scan with the modelled parser →
+    cosmetic lookup table → `Match`; spec = `specCosmetic` over the rules parsed line by line. -/
+def opCosChain (args : List W) : String :=
+  match args with
+  | [ls, host, css, js, gen, psl] =>
+    match UF.Ops.decRLists false ls, host.bytes?, css.bool?, js.bool?, gen.bool?, decPslTable psl with
+    | some lists, some host, some css, some js, some gen, some psl =>
+      if !storageOKB lists then "ood ood" else
+      let px := UF.Ops.mkParseExt psl [] [] [] [] []
+      let t := CosTable.build (storageCosRules px lists)
+      UF.Ops.B.outSel (t.matchHost px.ext host css js gen) ++ " " ++
+        UF.Ops.B.outSel (specCosmetic px.ext (cosRulesOf (specRules px lists)) host css js gen)
+    | _, _, _, _, _, _ => "bad-decode"
+  | _ => "bad-arity"
+
+end UF.Ops.I1
+
 namespace UF.Ops
 
 def dispatchI1 (op : String) (args : List W) : Option String :=
-  match op, args with
-  | _, _ => none
+  match op with
+  | "i1.chain" => some (I1.opChain args)
+  | "i1.dnschain" => some (I1.opDnsChain args)
+  | "i1.scan" => some (I1.opScan args)
+  | "i1.coschain" => some (I1.opCosChain args)
+  | _ => none
 
 end UF.Ops
